@@ -219,6 +219,31 @@ def regex_family(ev, mods, imps, rx, o, acc, pre_drop=None):
             HUB.violation("C12", f"decomposition:should_only_except:{d}:regex-subject", "'should only ... except' differs from its decomposition for a regex subject", w)
 
 
+def nested_batch_family(ev, mods, imps, s, objs, acc):
+    """Decomposition with a BATCH on the object side that lists a package next to one of its own sub packages
+    (redundant, legal): 'should only' <=> 'should' and 'should not ... except'; 'should only ... except' <=> 'should
+    ... except' and 'should not' - for the same batch on every side of the law."""
+    case = {"kind": "nested_batch_family", "mods": mods, "imps": imps, "s": s, "objs": objs}
+    HUB.case = case
+    out = {}
+    for verb in rrule.VERBS:
+        for d in rrule.DIRS:
+            for exc in (False, True):
+                cfg = {"verb": verb, "dir": d, "exc": exc, "subs": [s], "objs": list(objs), "anything": False}
+                out[(verb, d, exc)] = run(mk_rule(cfg, True), ev)[0]
+                acc.evaluated()
+    acc.count("nested_batch_families")
+    if any(v.startswith("error") for v in out.values()):
+        return
+    w = {"case": case, "outcomes": {str(k): v for k, v in out.items()}}
+    for d in rrule.DIRS:
+        acc.count("law_decomposition", 2)
+        if (out[("should_only", d, False)] == "pass") != (out[("should", d, False)] == "pass" and out[("should_not", d, True)] == "pass"):
+            HUB.violation("C12", f"decomposition:should_only:{d}:nested-object-batch", "'should only' differs from 'should' and 'should not ... except' for a batch listing a package next to its sub package", w)
+        if (out[("should_only", d, True)] == "pass") != (out[("should", d, True)] == "pass" and out[("should_not", d, False)] == "pass"):
+            HUB.violation("C12", f"decomposition:should_only_except:{d}:nested-object-batch", "'should only ... except' differs from its decomposition for a batch listing a package next to its sub package", w)
+
+
 def one_family(ev, mods, imps, s, o, acc, fid, mono_edges):
     out = eval_family(ev, mods, imps, s, o, acc, fid)
     acc.count("families")
@@ -370,6 +395,25 @@ def randomised(spec, acc):
             batch = pick_unrelated(rnd, mods, rnd.randint(2, 3), kind=kind)
             if len(batch) >= 2:
                 batch_alias(ev, mods, imps, [(kind, b) for b in batch], acc)
+            if rnd.random() < 0.4:
+                from ..refmodel.names import is_ancestor as _anc
+
+                nested = [(a, b) for a in mods for b in mods if a != "r" and _anc(a, b)]
+                free = [m for m in mods if m != "r"]
+                if nested:
+                    a, b = rnd.choice(nested)
+                    outside = [m for m in free if not related(m, a)]
+                    if outside:
+                        k = rnd.choice(["sub", "named"])
+                        objs = [(k, a), (k, b)]
+                        rnd.shuffle(objs)
+                        subj = rnd.choice(outside)
+                        nested_batch_family(ev, mods, imps, (rnd.choice(["named", "sub"]), subj), objs, acc)
+                        # ... and with an import between the subject and the INNER package itself
+                        extra = (subj, b) if rnd.random() < 0.5 else (b, subj)
+                        if not (_anc(extra[0], extra[1]) and extra[1].count(".") == extra[0].count(".") + 1):
+                            imps2 = sorted(set(imps) | {extra})
+                            nested_batch_family(build(mods, imps2), mods, imps2, ("named", subj), objs, acc)
             if rnd.random() < 0.5:
                 import re as _re
 
@@ -391,6 +435,8 @@ def replay(case, acc):
     if case["kind"] == "source_mono":
         acc.mark_inconclusive("source-level monotonicity cases are replayed by re-running the check with the recorded seed")
         return
+    if case["kind"] == "nested_batch_family":
+        return nested_batch_family(build(mods, imps), mods, imps, tuple(case["s"]), [tuple(o) for o in case["objs"]], acc)
     if case["kind"] == "regex_family":
         regex_family(build(mods, imps), mods, imps, case["rx"], tuple(case["o"]), acc, pre_drop=case.get("pre_drop"))
         return
